@@ -15,6 +15,12 @@ ASA_FAMS = {"F9": {"MaxLen": 2}, "F1": {"MaxLen": 3}, "F2": {"MaxLen": 2}, "F3":
             "F7": {"MaxLen": 2}}
 
 PLAN = {
+    "C05": dict(mode="conv", tags={"EQUIV", "FIXPOINT", "C08"},
+                quick=[("linux", "R1", None), ("linux", "I1", 6000), ("linux", "I2", None)],
+                thorough=[("linux", "R1", None), ("linux", "I1", None), ("linux", "I2", None)]),
+    "C18": dict(mode="merge", tags={"C18"}, crash_is_violation=True,
+                quick=[("asa", "M1", None), ("ios", "M1", None), ("linux", "M1", None)],
+                thorough=[("asa", "M1", None), ("ios", "M1", None), ("linux", "M1", None)]),
     "C16": dict(mode="det", tags={"C16"}, spec="DetTrace", level="exploration",
                 quick=[("asa", "F9", 5000), ("asa", "F2", 2000), ("asa", "F7", 1000), ("ios", "F8", 1000),
                        ("ios", "F3", 1000)],
@@ -46,21 +52,26 @@ PLAN = {
                           ("ios", "F7", None)]),
     "C14": dict(mode="conv", tags={"C14"},
                 quick=[("asa", "F1", 8000), ("asa", "F4", None), ("asa", "F3", 1500),
-                       ("ios", "F1", 8000), ("ios", "F4", 4000), ("ios", "F3", 1500)],
+                       ("ios", "F1", 8000), ("ios", "F4", 4000), ("ios", "F3", 1500), ("linux", "R1", None)],
                 thorough=[("asa", "F1", None), ("asa", "F4", None), ("asa", "F3", 40000),
-                          ("ios", "F1", None), ("ios", "F4", None), ("ios", "F3", None)]),
+                          ("ios", "F1", None), ("ios", "F4", None), ("ios", "F3", None), ("linux", "R1", None)]),
     "C10": dict(mode="resume", tags={"EQUIV", "FIXPOINT", "C08"},
                 quick=[("asa", "F1", 500), ("asa", "F2", 1200), ("asa", "F3", 400),
                        ("asa", "F4", 400), ("asa", "F7", 400),
-                       ("ios", "F1", 500), ("ios", "F8", 500), ("ios", "F3", 400), ("ios", "F4", 400)],
+                       ("ios", "F1", 500), ("ios", "F8", 500), ("ios", "F3", 400), ("ios", "F4", 400),
+                       ("linux", "R1", 600), ("linux", "I2", 200)],
                 thorough=[("asa", "F1", 8000), ("asa", "F2", 20000), ("asa", "F3", 6000),
                           ("asa", "F4", None), ("asa", "F7", 8000),
-                          ("ios", "F1", 8000), ("ios", "F8", 8000), ("ios", "F3", 6000), ("ios", "F4", 6000)]),
+                          ("ios", "F1", 8000), ("ios", "F8", 8000), ("ios", "F3", 6000), ("ios", "F4", 6000),
+                          ("linux", "R1", None), ("linux", "I1", 5000), ("linux", "I2", None)]),
 }
 
 IOS_FAMS = {"F1": {"MaxLen": 3}, "F3": {"MaxLen": 3}, "F4": {"MaxLen": 3}, "F7": {"MaxLen": 2},
             "F8": {"MaxLen": 3}}
-FAM_CONSTS = {"asa": ASA_FAMS, "ios": IOS_FAMS}
+LINUX_FAMS = {"R1": {"MaxLen": 3}, "I1": {"MaxLen": 2}, "I2": {"MaxLen": 2}, "M1": {"MaxLen": 3}}
+ASA_FAMS["M1"] = {"MaxLen": 3}
+IOS_FAMS["M1"] = {"MaxLen": 3}
+FAM_CONSTS = {"asa": ASA_FAMS, "ios": IOS_FAMS, "linux": LINUX_FAMS}
 
 
 def collect_cases(plan, rep):
@@ -102,7 +113,7 @@ def sample_of(dialect, case, result):
             "netspoc": mod.render(case["tgt"], False), "script": result.get("script", "")}
 
 
-def run(prop, tier, replay_file=None):
+def run(prop, tier, replay_file=None, extra=None):
     P = PLAN[prop]
     rep = C.Report(prop, tier, P.get("level", "model_checking"))
     bins = C.build()
@@ -127,6 +138,13 @@ def run(prop, tier, replay_file=None):
         if crashed:
             rep.notes.append("planner crashed (exit %s) on %d generated inputs, e.g. %s" % (
                 crashed[0]["rejected"]["rc"], len(crashed), crashed[0]["rejected"]["stderr"][-300:]))
+        if P.get("crash_is_violation"):
+            for r in rej[:10]:
+                c = byid[r["id"]]
+                rep.known_or_violation("", "planner %s on mergeable input (exit %s): %s" % (
+                    "crashed" if r["rejected"]["rc"] not in (0, 1) else "rejected", r["rejected"]["rc"],
+                    r["rejected"]["stderr"][-300:]),
+                    {"property": prop, "dialect": dialect, "tag": "crash", "detail": "", "case": c})
         nchanged += sum(1 for r in res if r["nev"])
         verr, nt, ne, tl = F.validate(dialect, res, tag=prop, spec=P.get("spec"))
         ntraces += nt
@@ -167,6 +185,8 @@ def run(prop, tier, replay_file=None):
                 tag, detail, tid, step, dialect, case["fam"], mod.render(case["dev"], True),
                 mod.render(case["tgt"], False), resid[cid].get("script", "")),
                 {"property": prop, "dialect": dialect, "tag": tag, "detail": detail, "case": case})
+    if extra and not replay_file:
+        extra(rep, bins)
     if nfail:
         rep.cov["failing_inputs_by_tag"] = nfail
     if not replay_file and ncases and (ncases - nrej) * 2 < ncases:
